@@ -364,6 +364,9 @@ func (ex *Exec) addPC(c *Term) {
 }
 
 func (ex *Exec) check(extra *Term, model bool) (Result, Model, string) {
+	if j := ex.job; j != nil && j.Cfg.Deadline > 0 && time.Since(j.start) > j.Cfg.Deadline+30*time.Second {
+		ex.abort("unwind", "time budget %s for this harness exhausted in the middle of a path", j.Cfg.Deadline)
+	}
 	// independent-constraint slicing: the path condition is known satisfiable (every
 	// decision on this path was confirmed feasible), so constraints that share no variable
 	// (transitively) with the queried condition cannot affect the answer
